@@ -89,6 +89,40 @@ def run(cmd, cwd, env, timeout=900):
         return -9, 'TIMEOUT'
 
 
+def summary(out):
+    known = set(k['obligation'] + '@' + (k['site'] or '?') for k in check.load_known())
+    rs = [json.loads(l) for l in open(out)]
+    tri = {}
+    tp = os.path.join(os.path.dirname(out), 'triage.json')
+    if os.path.exists(tp):
+        tri = json.load(open(tp))
+    sv = [r for r in rs if r['suite'] == 'survived']
+    for r in sv:
+        r['vf'] = [x for x in r.get('verus_failed', []) if x not in known]
+        r['det'] = bool(r['vf'] or r.get('twin_failed'))
+    from collections import Counter
+    c = Counter(r['suite'] for r in rs)
+    und = [r for r in sv if not r['det']]
+    lines = ['# Mutation run over the functions of /repo/src (tool/mutate.py)', '',
+             'One token changed per mutant (comparison / boolean / arithmetic operator, integer literal + 1, true/false, min/max, is_some/is_none, is_ok/is_err, dropped `!`).',
+             'Mutants that do not compile or are killed by the existing unit tests are set aside; every SURVIVOR of the suite is given to the whole woven crate (Verus, quick rlimit) and to all twins (quick menus).  Known findings are not counted as detections.', '',
+             '| | count |', '|---|---|',
+             '| mutants generated | %d |' % len(rs), '| do not compile | %d |' % c.get('nocompile', 0),
+             '| killed by the existing suite (incl. %d hangs) | %d |' % (sum(v for k, v in c.items() if 'timeout' in k), sum(v for k, v in c.items() if k.startswith('killed'))),
+             '| **survive the suite** | **%d** |' % len(sv),
+             '| ... reported by a failed Verus obligation | %d |' % sum(1 for r in sv if r['vf']),
+             '| ... of these: Verus alone (no twin found an input) | %d |' % sum(1 for r in sv if r['vf'] and not r.get('twin_failed')),
+             '| ... reported by a twin | %d |' % sum(1 for r in sv if r.get('twin_failed')),
+             '| ... of these: twin alone (Verus inconclusive: lost anchor / rustc) | %d |' % sum(1 for r in sv if not r['vf'] and r.get('twin_failed')),
+             '| ... **not reported** | **%d** |' % len(und), '',
+             '## Survivors not reported, triaged by hand', '', '| mutant | function | line | verdict |', '|---|---|---|---|']
+    for r in und:
+        lines.append('| `%s` | %s | `%s` | %s |' % (r['id'], r['fn'], r['text'][:70].replace('|', '\\|'), tri.get(r['id'], 'NOT TRIAGED')))
+    open(os.path.join(os.path.dirname(out), 'SUMMARY.md'), 'w').write('\n'.join(lines) + '\n')
+    print('\n'.join(lines[:22]))
+    return 0
+
+
 def main():
     ap = argparse.ArgumentParser()
     ap.add_argument('--repo', default='/repo')
@@ -97,6 +131,7 @@ def main():
     ap.add_argument('--limit', type=int, default=0)
     ap.add_argument('--stride', type=int, default=1, help='take every k-th mutant')
     ap.add_argument('--list', action='store_true')
+    ap.add_argument('--summary', action='store_true', help='write mutants/SUMMARY.md from the results + mutants/triage.json')
     a = ap.parse_args()
 
     allm = []
@@ -108,6 +143,8 @@ def main():
     allm = allm[::a.stride]
     if a.limit:
         allm = allm[:a.limit]
+    if a.summary:
+        return summary(a.out)
     if a.list:
         for m in allm:
             print(m['id'], '|', m['fn'], '|', m['text'])
@@ -154,13 +191,15 @@ def main():
                         report = weave.build(dst, woven)
                         res = check.run_verus(woven, None, 150, 1)
                         failures, inconclusive = check.classify(res, report)
-                        rec['verus_failed'] = sorted(set((f['obligation'] or 'builtin-safety') + '@' + (f['site'] or '?') for f in failures))
+                        known = set((k['obligation'], k['site']) for k in check.load_known())
+                        rec['verus_failed'] = sorted(set((f['obligation'] or 'builtin-safety') + '@' + (f['site'] or '?') for f in failures
+                                                         if (f['obligation'], f['site']) not in known))
                         rec['verus_inconclusive'] = inconclusive[:200] if inconclusive else None
                     except weave.LostAnchor as e:
                         rec['verus_failed'] = []
                         rec['verus_inconclusive'] = 'weave: %s' % str(e)[:200]
                     # twins (own scratch copy of the mutated copy)
-                    tw = replay.run_twins(dst, ['ALL'], 'quick', timeout=900)
+                    tw = replay.run_twins(dst, ['ALL'], 'quick')
                     rec['twin_failed'] = sorted(set(f['name'] for f in tw['fails']))
                     rec['twin_built'] = tw['built']
                     rec['detected'] = bool(rec['verus_failed'] or rec['twin_failed'])
